@@ -103,6 +103,8 @@ fn seed_ops(name: &str) -> Vec<Op> {
         let take = match name {
             "empty" => false,
             "minimal" => *req,
+            // the minimal entry without one required variable
+            x if x.starts_with("minus-") => *req && &x[6..] != *n,
             _ => true,
         };
         if !take {
@@ -406,6 +408,28 @@ fn main() {
             }
         }
         run.merge(t);
+    }
+    // almost complete entries: the minimal entry without one required variable (eleven seeds), every
+    // history of <= 2 calls over the full menu - completeness must follow the variables that are
+    // set, however many values were pushed
+    {
+        let menu = ops(true);
+        let seeds: Vec<String> = VARS.iter().filter(|(_, _, req)| *req).map(|(n, _, _)| format!("minus-{}", n)).collect();
+        run.bound(format!("almost complete entries: {} seeds (minimal entry without one required variable) x all histories of <= 2 calls over {} operations", seeds.len(), menu.len()));
+        par_items(&run, "C07 almost complete", &seeds, |_, seed, t| {
+            for a in 0..menu.len() {
+                for b in std::iter::once(None).chain((0..menu.len()).map(Some)) {
+                    let hist: Vec<Op> = std::iter::once(menu[a].clone()).chain(b.map(|i| menu[i].clone())).collect();
+                    t.transitions += hist.len() as u64;
+                    t.states += 1;
+                    if let Some((real, model)) = build(seed, &hist, t) {
+                        let h = hist.clone();
+                        let sd = seed.clone();
+                        check_state(t, &real, &model, &move || hist_json(&sd, &h));
+                    }
+                }
+            }
+        });
     }
     // typed-looking values: every value another parser of the library would canonicalise, in
     // every string and list variable (values are stored and printed verbatim)
